@@ -76,7 +76,7 @@ class C16(PropertyCheck):
     rule = ("streams: images from a Python arc writer on top of a Python bin-archive writer with layout knobs (padded 0x60 header or "
             "not, record order != body order, unaligned / empty / zero-filled bodies with gaps, bodies before and AFTER the tables, a body ending "
             "exactly on the last byte of the data region, an EMPTY file as the last body with nothing after it (start address = size of the data region), "
-            "shared and overlapping ranges, Count before or after Info, "
+            "shared and overlapping ranges, Count before or after Info, Count / Info ALSO on higher addresses (the lowest address counts: F22), "
             "extra labels, permuted pointer and label tables, junk and duplicated strings in the text section, non-ASCII lossless names), "
             "0-12 files quick / up to 100 thorough; each error variant (no Count, no Info, record without a string, range leaving the data "
             "region, planted offsets incl. 0xFFFFFFF0 = finding F9, Count larger/smaller than the table); ArcTest.arc. The result is compared "
@@ -102,7 +102,8 @@ class C16(PropertyCheck):
                       count_first=rng.random() < 0.5, extra_labels=rng.random() < 0.6, shuffle_tables=rng.random() < 0.5,
                       junk_text=rng.random() < 0.3, dup_strings=rng.random() < 0.3,
                       tail=rng.choice([0.0, 0.0, 0.3, 1.0]), end_exact=rng.random() < 0.5, share=share,
-                      indices=rng.choice(["seq", "seq", "zero", "dup", "random"]))
+                      indices=rng.choice(["seq", "seq", "zero", "dup", "random"]),
+                      decoys=rng.choice([None, None, None, "count", "info", "both"]))
             image, exp = txtfile.arc_write(files, rng, **kw)
             cases.append(Case(render(image, exp, files), "layout-knobs"))
         if not quick:
@@ -131,6 +132,13 @@ class C16(PropertyCheck):
                         image, exp = txtfile.arc_write(fs, rng, padded=padded, permute_bodies=False, unaligned=bool(rep & 1), count_first=count_first,
                                                        extra_labels=bool(rep & 2), tail=1.0, end_exact=True, empty_last=True)
                         cases.append(Case(render(image, exp, fs), "empty-last"))
+        # Count / Info on SEVERAL addresses: the lowest address counts (finding F22, repair 10408e9; before it the answer
+        # depended on the hash order of the label map and changed from run to run)
+        for rep in range(60 if quick else 600):
+            fs = rnd_files(rng, rng.randint(1, 4), 12)
+            image, exp = txtfile.arc_write(fs, rng, padded=bool(rep & 1), count_first=bool(rep & 2), shuffle_tables=bool(rep & 4),
+                                           extra_labels=bool(rep & 8), tail=rng.choice([0.0, 1.0]), decoys=("count", "info", "both")[rep % 3])
+            cases.append(Case(render(image, exp, fs), "several-addresses"))
         # error variants
         n_err = 600 if quick else 8000
         for _ in range(n_err):
@@ -165,10 +173,10 @@ class C16(PropertyCheck):
                 data_len = txtfile.bin_read("L", image)[0].__len__()
                 addr = off + (0x60 if kw["padded"] else 0)
                 size = len(files[i][1])
-                if size == 0:
-                    exp = "any" if addr > data_len else "ok"     # an empty range: the property does not decide
-                    if addr >= 1 << 32:
-                        exp = "any"
+                if addr >= 1 << 32:
+                    exp = "err:oob"                              # offset + padding does not fit a u32 (C16_offset_overflow), any size
+                elif size == 0:
+                    exp = "ok"                                   # an empty range is the empty body wherever it points (holds_file)
                 elif addr + size > data_len:
                     exp = "err:oob"
                 else:
@@ -218,15 +226,18 @@ TB = ("Trusted: Coq 8.16.1 kernel (vm_compute, no native_compute), no axioms (Pr
 
 MANIFEST = dict(
     text="Theorems about an executable Gallina model of arc::from_bytes (written with the bin-archive stream model): for every archive that "
-         "satisfies the layout relation arc_layout (Count label on exactly one address holding the number of files, Info label on exactly one "
-         "address followed by records (string cell, index, size, offset), body i = data[offset + pad, + size) with pad = 0x60 iff the first "
-         "word of the data is 0, names distinct) extraction returns exactly the packed files - any record order, any body placement, padded "
-         "header or not, empty bodies; the four error theorems (no Count, no Info, record without a string, range leaving the data region); "
+         "satisfies the layout relation arc_layout (Count / Info looked up as the repaired code does: the LOWEST address whose bucket holds the "
+         "label - with the label on one address, that address; the Count word = number of files; at the Info address records (string cell, "
+         "index, size, offset); body i = data[offset + pad, + size) with pad = 0x60 iff the first word of the data is 0 - the detection rule of "
+         "arc.rs:23, not '0x60 zero bytes'; an empty range is the empty body wherever it points; names distinct) extraction returns exactly the packed files - any record order, any body placement, padded "
+         "header or not, empty bodies; the error theorems (no Count, no Info, record without a string, ANY record of a readable table whose non-empty range leaves the data region, "
+         "offset + padding beyond u32, Count larger than the records that fit), each with an Example obtained through the theorem; "
          "no panic and no fuel exhaustion on ANY archive in both arithmetic modes. Model tied to /repo on every run by the extracted model vs "
          "the real library on images from a Python arc writer with layout knobs and error variants (debug and release), results compared as "
          "sorted maps with the file set the image was built from.",
-    note=TB + "Byte level: C16_extract_from_file (every file conforming to C01's format relation with an arc-shaped content is extracted exactly; "
-              "proved from C01's parser correctness, Proofs/TextBinBridge.v + ArcBytes.v); the other theorems speak about the parsed archive. "
-              "Modelled, not verified: HashMap, Vec (A-std), encoding_rs for names (A-codec). Repaired defect: F9 bc4a741.",
+    note=TB + "Byte level: C16_file_reads_content (on every file conforming to C01's format relation arc::from_bytes is the archive-level reader on the "
+              "file's content - no uniqueness of the labels needed after the repair 10408e9), so every theorem speaks about files; "
+              "proved from C01's parser correctness, Proofs/TextBinBridge.v + ArcBytes.v. "
+              "Modelled, not verified: HashMap, Vec (A-std), encoding_rs for names (A-codec). Repaired defects: F9 bc4a741, F22 10408e9 (find_label_address = lowest address).",
     technique="Coq proof (induction over the record list with the cursor invariant pos = info + 16 i; block-read lemma) + extracted-model differential check",
     ref="DESIGN.md section 6 (C16)")
